@@ -311,7 +311,20 @@ class C08Version(Harness):
         tree["physt_compatible"] = ver_obj
         r = E.attempt(io.create_from_dict, tree, "JSON")
         cur = tuple(int(t) for t in ver.CURRENT_VERSION.split(".")[:3])
-        return {"res": {"raised": r} if isinstance(r, Raised) else {"cls": type(r).__name__}, "cur": list(cur)}
+        # the same document through the text entry point parse_json (the version stamp of the serialised text is replaced)
+        pj = E.mod("physt.io.json")
+        text = h.to_json()
+        if E.sym:
+            pj.json.tree(text)["physt_compatible"] = ver_obj
+        else:
+            import json as _json
+
+            d = _json.loads(text)
+            d["physt_compatible"] = f"{a}.{b}.{c}"
+            text = _json.dumps(d)
+        r2 = E.attempt(io.parse_json, text)
+        return {"res": {"raised": r} if isinstance(r, Raised) else {"cls": type(r).__name__},
+                "res_text": {"raised": r2} if isinstance(r2, Raised) else {"cls": type(r2).__name__}, "cur": list(cur)}
 
     def oracle(self, cx, p, x, obs):
         yield "no_exception", obs.get("raised") is None
@@ -320,8 +333,9 @@ class C08Version(Harness):
         a, b, c = (cx.t(i) for i in x["v"])
         ca, cb, cc = obs["cur"]
         newer = z3.Or(a > ca, z3.And(a == ca, b > cb), z3.And(a == ca, b == cb, c > cc))
-        r = obs["res"]
-        if "raised" in r:
-            yield "refused_only_if_newer", z3.And(newer, z3.BoolVal(r["raised"].name in ("VersionError", "Exception")))
-        else:
-            yield "newer_refused", z3.Not(newer)
+        for key, tag in (("res", ""), ("res_text", "_parse_json")):
+            r = obs[key]
+            if "raised" in r:
+                yield "refused_only_if_newer" + tag, z3.And(newer, z3.BoolVal(r["raised"].name in ("VersionError", "Exception")))
+            else:
+                yield "newer_refused" + tag, z3.Not(newer)
